@@ -196,7 +196,7 @@ func tag(start string, m *space.Mismatch) *space.Mismatch {
 func main() {
 	r := common.Start("C04", "model_checking")
 	if valuesField < 0 {
-		common.Infra("heapz.Heap has no private field `values []*Element[T]`: the harness reads the backing order through it")
+		common.Infra("heapz.Heap has not exactly one private field of type []*Element[T]: the harness reads the backing order through it")
 	}
 	extendStarts(sizeCap(r))
 	var results []space.Result
